@@ -2,6 +2,7 @@ use crate::fw::Ctx;
 
 pub mod c07;
 pub mod c12;
+pub mod c17;
 pub mod c18;
 
 pub struct Prop {
@@ -13,6 +14,7 @@ pub struct Prop {
 pub const PROPS: &[Prop] = &[
     Prop { id: "C07", run: c07::run, replay: c07::replay },
     Prop { id: "C12", run: c12::run, replay: c12::replay },
+    Prop { id: "C17", run: c17::run, replay: c17::replay },
     Prop { id: "C18", run: c18::run, replay: c18::replay },
 ];
 
